@@ -45,6 +45,7 @@ Clauses == {
   "C11_UploadBuffers", "C11_DownloadWindow", "C11_IoQueue", "C11_BufferSize",
   "C12_AllPermitsReturned",
   "C14_MultipartIffGeThreshold", "C14_DownloadRangesTile",
+  "C14_PartSizesWithinLimits", "C14_ChunkChangedOnlyIfRequired",
   "C16_StreamInOrderExactlyOnce",
   "C17_DoneNeverReverts",
   "C18_NothingAfterShutdownReturns", "C18_AllDoneAtShutdownReturn",
@@ -165,6 +166,8 @@ Holds(c, o) ==
     [] c = "C11_BufferSize" -> AllX(o, LAMBDA xr : ~xr.bigPart)
     [] c = "C12_AllPermitsReturned" -> (o.ended /\ o.stuck = "") => ~o.permsBad
 
+    [] c \in {"C14_PartSizesWithinLimits", "C14_ChunkChangedOnlyIfRequired"} ->
+         AllX(o, LAMBDA xr : c \notin xr.cplBad)
     [] c = "C14_MultipartIffGeThreshold" ->
          \* (a stream whose sized reads return short cannot be measured by
          \* the threshold pre-read; the decision is not required of it)
